@@ -128,6 +128,27 @@ def answer (toks : List String) : String :=
       join (r.2.map fun a => match r.1.heap[a]? with
         | some M => showMat showESEntry M
         | none => "unallocated") "|"
+  -- round 4: the doubles `event_synchronization` / `event_series_analysis('ES')` return, bit for
+  -- bit (correctly rounded `np.sqrt`, correctly rounded division, rounded symmetrisation)
+  | ["esf64", ts1, bx, ts2, by_, tm, lag] =>
+      let r := esF64 (esSeries (rats ts1) (bools bx) (rats ts2) (bools by_) (optRat tm) (ratD lag))
+      join [showOptRat r.1, showOptRat r.2]
+  | ["esmatf64", ts, e, n, tm, lag, s] =>
+      match symm? s with
+      | none => "bad-request"
+      | some s => showMat showOptRat
+          (esAnalysisF64 (rats ts) (boolMat e) n.toNat! (optRat tm) (ratD lag) s)
+  -- round 4: thresholding through NumPy's own quantile algorithm (`npQuantile`, `npMedian`) and
+  -- the float64 threshold array
+  | ["mkevnp", data, nvar, ms, vs, tys] =>
+      let ms := (splitTok ms ",").map fun s => if s == "v" then TMethod.value else TMethod.quantile
+      let vs := (splitTok vs ",").map optRat
+      let tys := (splitTok tys ",").map fun s =>
+        if s == "a" then some TType.above else if s == "b" then some TType.below else none
+      match makeEventMatrixD .float64 (ratMat data) nvar.toNat! ms vs tys with
+      | .error .valueError => "raise:ValueError"
+      | .error .ioError => "raise:OSError"
+      | .ok M => showBoolMat M
   | _ => "bad-request"
 
 def main : IO Unit := runDriver answer
